@@ -25,7 +25,7 @@ structure CompState where
   forced : Bool                       -- grouping factor: kind forced to "categoric"
   levels : List Level := []
   contrast : Option ContrastMatrix := none
-  tstate : TState := {}
+  tstate : TS := .leaf
   offsetConst : Option Rat := none
   propConst : Option Rat := none
   propTrialsName : Option String := none
@@ -89,7 +89,7 @@ def trainComp (env : Env) (name : String) (e : Expr) (forced isResponse full : B
   let n := env.frame.nrows
   match e with
   | .call .. | .brace .. =>
-    let (v, ts) ← posOnly (evalArg env true e [] {})
+    let (v, ts) ← posOnly (evalArg env e none)
     let st : CompState := { name, expr := e, kind := .numeric, forced, tstate := ts }
     match v with
     | .vec xs isInt =>
@@ -195,7 +195,7 @@ def newComp (st : CompState) (env : Env) (mode : UnseenMode) : M (Matrix × Bool
       match st.offsetConst with
       | some q => pure (List.replicate n [some q], false)
       | none => do
-        let (v, _) ← posOnly (evalArg env false st.expr [] st.tstate)
+        let (v, _) ← posOnly (evalArg env st.expr (some st.tstate))
         match v with
         | .offsetVar xs => pure (colOfEntries xs, false)
         | _ => .error .typeError
@@ -209,7 +209,7 @@ def newComp (st : CompState) (env : Env) (mode : UnseenMode) : M (Matrix × Bool
           | _ => .error .typeError
         | none => .error (.keyError "trials")
     | _ => do
-      let (v, _) ← posOnly (evalArg env false st.expr [] st.tstate)
+      let (v, _) ← posOnly (evalArg env st.expr (some st.tstate))
       if st.kind == .numeric then
         match v with
         | .vec xs _ => pure (colOfEntries xs, false)
